@@ -33,6 +33,7 @@ class Contract:
         self.bounded = bool(holder.__dict__.get("bounded", False))   # concrete extents: bounded stand-in
         self.bound_note = holder.__dict__.get("bound_note", "")
         self.mode = holder.__dict__.get("mode", "R")
+        self.extent_cap = holder.__dict__.get("extent_cap", 4 if self.bounded else None)
         self.max_paths = holder.__dict__.get("max_paths", 400)
         self.ensures = []      # (name, f(a, old, result))
         self.raises = []       # (exc type, name, when(a_old), state clause f(a, old) or None)
@@ -373,8 +374,8 @@ def _to_goal(v):
 def run_path(I, c, cfg, decisions):
     """one symbolic execution of the function under contract `c`; returns (ctx, builder, records)"""
     I.ctx = Ctx(decisions)
-    for v in getattr(I, "ctxvars", []):
-        pass
+    I.extent_cap = c.extent_cap
+    I.reset_state()
     b = SymB(I, cfg)
     records = []
     inp = c.inputs(b)
@@ -434,7 +435,7 @@ DYADIC_MAX = 4096
 
 
 def solve(hyps, goal, timeout_ms=20000, dyadic_syms=None, seed=0):
-    """returns ('proved'|'refuted'|'unknown', model dict or None, seconds, reason)"""
+    """returns ('proved'|'refuted'|'unknown', model or None, seconds, reason)"""
     t0 = time.time()
     s = z3.Solver()
     s.set("timeout", timeout_ms)
@@ -445,31 +446,27 @@ def solve(hyps, goal, timeout_ms=20000, dyadic_syms=None, seed=0):
     r = s.check()
     if r == z3.unsat:
         return "proved", None, time.time() - t0, ""
-    model = None
-    status = "unknown"
-    reason = s.reason_unknown() if r == z3.unknown else ""
     if r == z3.sat:
-        status = "refuted"
-        model = s.model()
-    # try for an exactly representable (dyadic) model
-    if dyadic_syms:
-        s2 = z3.Solver()
-        s2.set("timeout", timeout_ms)
-        for h in hyps:
-            s2.add(h)
-        s2.add(z3.Not(goal))
-        for name, (sort, t) in dyadic_syms.items():
-            if sort == "real":
-                k = z3.Int(name + "$k")
-                s2.add(t * DYADIC_DEN == z3.ToReal(k), k >= -DYADIC_MAX, k <= DYADIC_MAX)
-            elif sort == "int":
-                s2.add(t >= -DYADIC_MAX, t <= DYADIC_MAX)
-        r2 = s2.check()
-        if r2 == z3.sat:
-            status = "refuted"
-            model = s2.model()
-            reason = "dyadic model"
-    return status, model, time.time() - t0, reason
+        return "refuted", s.model(), time.time() - t0, ""
+    return "unknown", None, time.time() - t0, s.reason_unknown()
+
+
+def dyadic_model(hyps, goal, symbols, timeout_ms=10000):
+    """an exactly representable counter-model (reals = k/16, |k| <= 4096), if there is one"""
+    s2 = z3.Solver()
+    s2.set("timeout", timeout_ms)
+    for h in hyps:
+        s2.add(h)
+    s2.add(z3.Not(goal))
+    for name, (sort, t) in symbols.items():
+        if sort == "real":
+            k = z3.Int(name + "$k")
+            s2.add(t * DYADIC_DEN == z3.ToReal(k), k >= -DYADIC_MAX, k <= DYADIC_MAX)
+        elif sort == "int":
+            s2.add(t >= -DYADIC_MAX, t <= DYADIC_MAX)
+    if s2.check() == z3.sat:
+        return s2.model()
+    return None
 
 
 def model_values(model, symbols):
@@ -621,13 +618,19 @@ def verify(cname, cfg, timeout_ms=20000, seed=0, repo_src=None):
             kind, name, hyps, goal = rec_[:4]
             relaxed = rec_[4] if len(rec_) > 4 else None
             oname = f"{c.name}#{kind}:{name}@{cid}/{path}"
-            status, model, secs, reason = solve(hyps, goal, timeout_ms, b.symbols if True else None, seed)
+            status, model, secs, reason = solve(hyps, goal, timeout_ms, None, seed)
             res.solver_s += secs
             if status != "proved" and relaxed is not None:
                 st2, _, secs2, _ = solve(hyps, relaxed[1], timeout_ms, None, seed)
                 res.solver_s += secs2
                 if st2 == "proved":
                     status = "known:" + relaxed[0]
+            if status in ("refuted", "unknown"):
+                t1 = time.time()
+                dm = dyadic_model(hyps, goal, b.symbols, min(timeout_ms, 10000))
+                res.solver_s += time.time() - t1
+                if dm is not None:
+                    model, status, reason = dm, "refuted", "dyadic model"
             rec = {"name": oname, "kind": kind, "clause": name, "config": cid, "path": path, "status": status,
                    "ms": round(secs * 1000, 1), "hyps": len(hyps), "mode": c.mode, "bounded": c.bounded}
             if status != "proved":
